@@ -512,6 +512,13 @@ func Main(args []string) int {
 			w.Emit(e)
 		}
 	}
+	if *basis {
+		toolEvents(rng, func(e ev) {
+			n++
+			e["prog"], e["fork"], e["indep"] = n, 1, true
+			w.Emit(e)
+		})
+	}
 	res := tr.Result{Events: w.N, Cases: n}
 	res.Print()
 	return 0
